@@ -414,6 +414,52 @@ def _flatten_nested_mods(txt, is_lib):
     return txt
 
 
+_LIB_ROLE_RENAMES = []
+
+
+def _role_names(txt, is_lib):
+    """Crate-private adapter types are named by the role they play, whatever the source calls them: the private input that
+    overrides the zero-copy `Bytes` hook is `BytesCursor`, the private input wrappers that keep a depth / a memory budget
+    are `DepthTrackingInput` / `MemTrackingInput`.  (Renaming a type that is not reachable from outside the crate changes
+    nothing a user can observe; the rules that audit these types would otherwise depend on their spelling.)  A type that is
+    reachable from outside keeps its name, and so does every type if the roles are not unambiguous."""
+    global _LIB_ROLE_RENAMES
+    if is_lib:
+        ren = []
+        try:
+            d = json.loads(txt)
+            adts = {a['path']: a for a in d.get('adts', [])}
+            cand = {}
+            for i in d.get('impls', []):
+                if not (i.get('trait') or '').endswith('Input'):
+                    continue
+                head = re.sub(r'<.*$', '', i.get('self') or '')
+                a = adts.get(head)
+                if not a or a.get('exported', True) or a.get('kind') != 'struct' or not a.get('variants'):
+                    continue
+                names = {it['name'] for it in i.get('items', [])}
+                ftys = sorted(str(f.get('ty')) for f in a['variants'][0]['fields'])
+                refs = [t for t in ftys if t.startswith('&')]
+                role = None
+                if 'scale_internal_decode_bytes' in names and not refs:
+                    role = 'BytesCursor'
+                elif {'descend_ref', 'ascend_ref'} <= names and refs and ftys.count('u32') == 2:
+                    role = 'DepthTrackingInput'
+                elif 'on_before_alloc_mem' in names and refs and ftys.count('usize') == 2:
+                    role = 'MemTrackingInput'
+                if role:
+                    cand.setdefault(role, []).append(head)
+            for role, heads in cand.items():
+                if len(heads) == 1 and heads[0].split('::')[-1] != role and not any(p.split('::')[-1] == role for p in adts):
+                    ren.append((heads[0].split('::')[-1], role))
+        except (ValueError, KeyError, TypeError):
+            ren = []
+        _LIB_ROLE_RENAMES = ren
+    for old, new_ in _LIB_ROLE_RENAMES:
+        txt = re.sub(r'(?<![A-Za-z0-9_])%s(?![A-Za-z0-9_])' % re.escape(old), new_, txt)
+    return txt
+
+
 class Facts:
     def __init__(self, path):
         with open(path) as f:
@@ -422,6 +468,7 @@ class Facts:
             # items of the library print with the crate name when seen from another crate
             txt = txt.replace('parity_scale_codec::', '')
         txt = _flatten_nested_mods(txt, os.path.basename(path).startswith('parity_scale_codec.'))
+        txt = _role_names(txt, os.path.basename(path).startswith('parity_scale_codec.'))
         d = json.loads(txt)
         self.path = path
         verify_sources(d, path)
